@@ -144,4 +144,17 @@ def clauses : List (String × (Ev → List Ev → Bool)) :=
 def violated (h : List Ev) : List String :=
   (clauses.filter (fun c => !forallH c.2 h)).map (·.1)
 
+/-- judgement on a COMPLETE history taken at quiescence — every timer of this endpoint has fired or was cancelled
+(so the closing timeout, if our close started one, has elapsed) and no on_message is in flight: once our close frame
+is on the wire the TCP connection has been torn down and the close notification has fired (with `notifyOnce`:
+exactly once).  This is the "… or the closing timeout elapses" half of the teardown clause stated without relying on
+the timer still existing: an endpoint that sent its close frame and then has neither a live timer nor a closed
+transport would wait for a silent peer forever. -/
+def settledAtQuiescence (h : List Ev) : Bool :=
+  !h.any isClose || (h.any isStreamClosed && h.any isNotify)
+
+/-- `violated`, plus the quiescence clause when the observer reports quiescence at the end of the history -/
+def violatedQ (h : List Ev) (quiescent : Bool) : List String :=
+  violated h ++ (if quiescent && !settledAtQuiescence h then ["settledAtQuiescence"] else [])
+
 end TornadoModel.C16.Spec
